@@ -263,17 +263,20 @@ Proof.
 Qed.
 
 (* the helper vector and the Gram-Schmidt remainder of normalize_matrix3 *)
-Definition nm3_e2 (r : R3) : R3 := if sltb RS (c999 RS) (scal RS r (ex RS)) then ey RS else ex RS.
+Definition nm3_e2 (r : R3) : R3 := if sltb RS (c999 RS) (sabs RS (scal RS r (ex RS))) then ey RS else ex RS.
 Definition nm3_w (r : R3) : R3 := vdiff RS (nm3_e2 r) (renorm_to RS (scal RS (nm3_e2 r) r) r).
 
-Lemma nm3_w_ok r : norm2 r = 1 -> vx r <> -1 -> 0 < norm2 (nm3_w r) /\ dot r (nm3_w r) = 0.
+Lemma nm3_w_ok r : norm2 r = 1 -> 0 < norm2 (nm3_w r) /\ dot r (nm3_w r) = 0.
 Proof.
-  intros Hu Hx. unfold nm3_w, nm3_e2, renorm_to. rewrite (mag_unit r Hu).
-  destruct r as [x y z]. unfold norm2, dot in Hu; rs. cbn [vx] in Hx.
+  intros Hu. unfold nm3_w, nm3_e2, renorm_to. rewrite (mag_unit r Hu).
+  destruct r as [x y z]. unfold norm2, dot in Hu; rs.
   unfold scal, ex, ey, c999; rs.
-  destruct (Rltb (999 / 1000) (x * 1 + y * 0 + z * 0)) eqn:E; [apply Rltb_true in E | apply Rltb_false in E];
+  destruct (Rltb (999 / 1000) (Rabs (x * 1 + y * 0 + z * 0))) eqn:E; [apply Rltb_true in E | apply Rltb_false in E];
+    replace (x * 1 + y * 0 + z * 0) with x in E by ring;
     unfold vdiff, rescale, norm2, dot; rs.
-  - split.
+  - assert (Hxx : 998 / 1000 < x * x).
+    { unfold Rabs in E. destruct (Rcase_abs x); nra. }
+    split.
     + replace ((0 - (0 * x + 1 * y + 0 * z) / 1 * x) * (0 - (0 * x + 1 * y + 0 * z) / 1 * x)
                + (1 - (0 * x + 1 * y + 0 * z) / 1 * y) * (1 - (0 * x + 1 * y + 0 * z) / 1 * y)
                + (0 - (0 * x + 1 * y + 0 * z) / 1 * z) * (0 - (0 * x + 1 * y + 0 * z) / 1 * z))
@@ -283,16 +286,14 @@ Proof.
                + z * (0 - (0 * x + 1 * y + 0 * z) / 1 * z))
         with (y - y * (x * x + y * y + z * z)) by field.
       rewrite Hu. ring.
-  - split.
+  - assert (Hxx : x * x < 1).
+    { unfold Rabs in E. destruct (Rcase_abs x); nra. }
+    split.
     + replace ((1 - (1 * x + 0 * y + 0 * z) / 1 * x) * (1 - (1 * x + 0 * y + 0 * z) / 1 * x)
                + (0 - (1 * x + 0 * y + 0 * z) / 1 * y) * (0 - (1 * x + 0 * y + 0 * z) / 1 * y)
                + (0 - (1 * x + 0 * y + 0 * z) / 1 * z) * (0 - (1 * x + 0 * y + 0 * z) / 1 * z))
         with (1 - 2 * (x * x) + x * x * (x * x + y * y + z * z)) by field.
-      rewrite Hu.
-      assert (H1 : 0 < 1 - x) by lra.
-      assert (H2 : 0 < 1 + x).
-      { assert (x * x <= 1) by nra. assert (-1 <= x) by nra. lra. }
-      nra.
+      rewrite Hu. nra.
     + replace (x * (1 - (1 * x + 0 * y + 0 * z) / 1 * x) + y * (0 - (1 * x + 0 * y + 0 * z) / 1 * y)
                + z * (0 - (1 * x + 0 * y + 0 * z) / 1 * z))
         with (x - x * (x * x + y * y + z * z)) by field.
@@ -305,11 +306,11 @@ Lemma nm3_unfold (m : M3 (option R)) i1 row1 :
              else Ok (place3 i1 row1 (renorm RS (nm3_w row1)) (vect RS row1 (renorm RS (nm3_w row1)))).
 Proof. intros H1 H2. unfold nm3. rewrite H1, H2. reflexivity. Qed.
 
-Lemma nm3_row r i : (i < 3)%nat -> norm2 r = 1 -> vx r <> -1 ->
+Lemma nm3_row r i : (i < 3)%nat -> norm2 r = 1 ->
   nm3 RS (place3 i (somev r) none3 none3)
   = Ok (place3 i r (renorm RS (nm3_w r)) (vect RS r (renorm RS (nm3_w r)))).
 Proof.
-  intros Hi Hu Hx. destruct (nm3_w_ok r Hu Hx) as [Hp Ho].
+  intros Hi Hu. destruct (nm3_w_ok r Hu) as [Hp Ho].
   destruct (renorm_pos _ Hp) as (Hz & _ & _).
   assert (Hg : isz RS (mag RS r) || isz RS (mag RS (nm3_w r)) = false)
     by (rewrite (isz_mag_unit r Hu), Hz; reflexivity).
@@ -320,30 +321,30 @@ Proof.
 Qed.
 
 Theorem normalize_matrix_3_rows : forall (i : nat) (r : R3), (i < 3)%nat ->
-  norm2 r = 1 -> vx r <> -1 ->
+  norm2 r = 1 ->
   let pat := place3 i (somev r) none3 none3 in
   exists b, normalize_matrix RS (mlist pat) = Ok (mlist b) /\ rotation b /\ agrees pat b.
 Proof.
-  intros i r Hi Hu Hx.
-  destruct (nm3_w_ok r Hu Hx) as [Hp Ho]. destruct (renorm_pos _ Hp) as (_ & Hn & Hd).
+  intros i r Hi Hu.
+  destruct (nm3_w_ok r Hu) as [Hp Ho]. destruct (renorm_pos _ Hp) as (_ & Hn & Hd).
   specialize (Hd r Ho).
   destruct (rot3 r (renorm RS (nm3_w r)) Hu Hn Hd) as (Ra & Rb & Rc).
   pose proof (nm3_row r) as Hrow.
   set (r2 := renorm RS (nm3_w r)) in *.
   revert i Hi. apply place3_cases; cbv zeta.
-  - specialize (Hrow 0%nat ltac:(lia) Hu Hx). exists (mkV r r2 (cross r r2)). split; [| split; [exact Ra|]].
+  - specialize (Hrow 0%nat ltac:(lia) Hu). exists (mkV r r2 (cross r r2)). split; [| split; [exact Ra|]].
     + destruct r as [x y z]. cbv [place3 none3 somev vmap mlist vlist vx vy vz app] in Hrow |- *.
       rewrite nm_full9. cbv zeta.
       cbn [count_some filter is_some List.length Nat.eqb rowwise vx vy vz andb orb negb].
       rewrite Hrow. rewrite vect_cross. reflexivity.
     + destruct r as [x y z]. unfold agrees, agree3, agree1; cbn [place3 none3 somev vmap vx vy vz]. tauto.
-  - specialize (Hrow 1%nat ltac:(lia) Hu Hx). exists (mkV (cross r r2) r r2). split; [| split; [exact Rb|]].
+  - specialize (Hrow 1%nat ltac:(lia) Hu). exists (mkV (cross r r2) r r2). split; [| split; [exact Rb|]].
     + destruct r as [x y z]. cbv [place3 none3 somev vmap mlist vlist vx vy vz app] in Hrow |- *.
       rewrite nm_full9. cbv zeta.
       cbn [count_some filter is_some List.length Nat.eqb rowwise vx vy vz andb orb negb].
       rewrite Hrow. rewrite vect_cross. reflexivity.
     + destruct r as [x y z]. unfold agrees, agree3, agree1; cbn [place3 none3 somev vmap vx vy vz]. tauto.
-  - specialize (Hrow 2%nat ltac:(lia) Hu Hx). exists (mkV r2 (cross r r2) r). split; [| split; [exact Rc|]].
+  - specialize (Hrow 2%nat ltac:(lia) Hu). exists (mkV r2 (cross r r2) r). split; [| split; [exact Rc|]].
     + destruct r as [x y z]. cbv [place3 none3 somev vmap mlist vlist vx vy vz app] in Hrow |- *.
       rewrite nm_full9. cbv zeta.
       cbn [count_some filter is_some List.length Nat.eqb rowwise vx vy vz andb orb negb].
@@ -363,12 +364,12 @@ Proof.
 Qed.
 
 Theorem normalize_matrix_3_cols : forall (i : nat) (c : R3), (i < 3)%nat ->
-  norm2 c = 1 -> vx c <> -1 ->
+  norm2 c = 1 ->
   let pat := transpose (place3 i (somev c) none3 none3) in
   exists b, normalize_matrix RS (mlist pat) = Ok (mlist b) /\ rotation b /\ agrees pat b.
 Proof.
-  intros i r Hi Hu Hx.
-  destruct (nm3_w_ok r Hu Hx) as [Hp Ho]. destruct (renorm_pos _ Hp) as (_ & Hn & Hd).
+  intros i r Hi Hu.
+  destruct (nm3_w_ok r Hu) as [Hp Ho]. destruct (renorm_pos _ Hp) as (_ & Hn & Hd).
   specialize (Hd r Ho).
   destruct (rot3 r (renorm RS (nm3_w r)) Hu Hn Hd) as (Ra & Rb & Rc).
   pose proof (nm3_row r) as Hrow.
@@ -388,24 +389,3 @@ Proof.
     + apply agrees_transpose. destruct r as [x y z]. unfold agrees, agree3, agree1; cbn [place3 none3 somev vmap vx vy vz]. tauto.
 Qed.
 
-(* the excluded vector: (-1, 0, 0) as the only row makes the Gram-Schmidt
-   remainder vanish: ZeroDivisionError (genuine defect, class matrix3_row_minus_ex) *)
-Theorem matrix3_row_minus_ex_refuted :
-  exists r : R3, norm2 r = 1 /\
-    normalize_matrix RS (mlist (place3 0 (somev r) none3 none3)) = Err EZeroDiv.
-Proof.
-  exists (mkV (-1) 0 0). split; [unfold norm2, dot; rs; ring|].
-  cbv [place3 none3 somev vmap mlist vlist vx vy vz app]. rewrite nm_full9. cbv zeta.
-  cbn [count_some filter is_some List.length Nat.eqb rowwise vx vy vz andb orb negb].
-  rewrite (nm3_unfold _ 0%nat (mkV (-1) 0 0)); [| reflexivity | reflexivity].
-  assert (Ew : nm3_w (mkV (-1) 0 0) = mkV 0 0 0).
-  { unfold nm3_w, nm3_e2, renorm_to.
-    assert (Hu : norm2 (mkV (-1) 0 0) = 1) by (unfold norm2, dot; rs; ring).
-    rewrite (mag_unit _ Hu). unfold scal, ex, ey, c999; rs.
-    destruct (Rltb (999 / 1000) (-1 * 1 + 0 * 0 + 0 * 0)) eqn:E; [apply Rltb_true in E; lra|].
-    unfold vdiff, rescale; rs. f_equal; field. }
-  rewrite Ew.
-  assert (Ez : isz RS (mag RS (mkV 0 0 0)) = true).
-  { unfold isz, mag, mag2, scal; rs. apply Reqb_true. replace (0 * 0 + 0 * 0 + 0 * 0) with 0 by ring. apply sqrt_0. }
-  rewrite Ez, orb_true_r. reflexivity.
-Qed.
